@@ -101,6 +101,8 @@ def nic_v1_body(msg, nics):
     o = outcome(ADSB.nic_v1, msg, nics)
     if tc is not None and ((5 <= tc and tc <= 18) or (20 <= tc and tc <= 22)):
         assert o[0] == "ret" and 0 <= o[1][0] and o[1][0] <= 11, "nic_v1 returns a NIC for every position TC x supplement"
+        if tc != 7:
+            assert o[1][0] == adsb_spec.nic_v1_category(tc, nics), "NIC (version 1) of the type code and NIC supplement"
     else:
         assert o == ("raise", "RuntimeError"), "nic_v1 rejects non-position type codes (incl. TC19)"
 
@@ -112,6 +114,12 @@ def nic_v2_body(msg, nica, nicbc):
     o = outcome(ADSB.nic_v2, msg, nica, nicbc)
     if tc is not None and ((5 <= tc and tc <= 18) or (20 <= tc and tc <= 22)):
         assert o[0] == "ret", "nic_v2 returns for every position TC x supplements (None, None when undefined)"
+        na = 0 if tc >= 20 else nica
+        nb = 0 if tc >= 20 else nicbc
+        want = adsb_spec.nic_v2_category(tc, na, nb)
+        if want is not None and not (tc == 13 and na == 1 and nb == 0):
+            # (combinations DO-260B does not define are not constrained)
+            assert o[1][0] == want, "NIC (version 2) of the type code and supplements A, B/C"
     else:
         assert o == ("raise", "RuntimeError"), "nic_v2 rejects non-position type codes (incl. TC19)"
 
